@@ -42,11 +42,14 @@ def _gen(rnd):
             break
         tag = "LT_%d" % tagnums[gi]  # unique, but not in lexicographic order along the sequence (LT_9 before LT_10)
         if rnd.random() < 0.2:
+            # a feature interval may have a name, an identifier, both or neither
+            fname = "feat%d" % gi if rnd.random() < 0.6 else None
+            fid = "fid%d" % gi if rnd.random() < 0.7 else None
             fs = [FeatureInterval([b[0] for b in blocks], [b[1] for b in blocks], Strand.from_symbol(st),
-                                  feature_name="feat%d" % gi, sequence_name="chrG", parent_or_seq_chunk_parent=par)]
+                                  feature_name=fname, feature_id=fid, sequence_name="chrG", parent_or_seq_chunk_parent=par)]
             fcs.append(FeatureIntervalCollection(fs, feature_collection_name="fcn%d" % gi, locus_tag=tag,
                                                  sequence_name="chrG", parent_or_seq_chunk_parent=par))
-            model.append(["fc", blocks[0][0], blocks[-1][1], st, "fcn%d" % gi, tag, [[blocks]]])
+            model.append(["fc", blocks[0][0], blocks[-1][1], st, "fcn%d" % gi, tag, [[blocks, fid or ""]]])
         else:
             btype = rnd.choice(["protein_coding", "protein_coding", "protein_coding", "ncRNA", "tRNA", "rRNA", "misc_RNA"])
             txs, tm = [], []
@@ -173,7 +176,8 @@ def _events(args):
                 q = f.qualifiers
                 strand = {1: "+", -1: "-"}.get(f.location.strand, ".")
                 records.append([f.type, _loc_blocks(f.location), strand, q.get("gene", [""])[0], q.get("locus_tag", [""])[0],
-                                q.get("protein_id", [""])[0] if f.type == "CDS" else ""])
+                                q.get("protein_id", [""])[0] if f.type == "CDS" else
+                                (q.get("feature_id", [""])[0] if f.type == "feat_interval" else "")])
                 parts = f.location.parts if hasattr(f.location, "parts") else [f.location]
                 if len(parts) > 1:
                     orders.append([strand, [int(p.start) for p in parts]])
